@@ -310,6 +310,9 @@ func vNatSettle(base int, d time.Duration) int {
 	}
 }
 
+// called through a variable so that the repository's getter keeps its own stack frame in race reports
+var vNatGetter = getCurrentNATType
+
 func vNatSetGlobal(v string) {
 	currentNATTypeAccess.Lock()
 	currentNATType = v
@@ -349,7 +352,7 @@ func (r *vNatRig) runScript(c *vNatCase) map[string]interface{} {
 					case <-stopHammer:
 						return
 					default:
-						_ = getCurrentNATType()
+						_ = vNatGetter()
 						time.Sleep(200 * time.Microsecond)
 					}
 				}
